@@ -484,33 +484,90 @@ func c03R3(c *Ctx, r *Report) {
 			continue
 		}
 		r.fn(name)
-		// range test b < LO || b > HI => \DDD
+		// the printable range, read off the order comparisons of an octet with constants in the printer and the
+		// helpers it calls (whatever the spelling: b < ' ' || b > '~', !(b >= 0x20 && b <= 0x7e), a switch ...): each
+		// comparison cuts the octet values in two at a point; the cuts must be 0x20 and 0x7f
 		var lo, hi int64 = -1, -1
 		usesSpecial, usesEscape := false, false
-		ast.Inspect(fd.Body, func(n ast.Node) bool {
-			switch t := n.(type) {
-			case *ast.BinaryExpr:
-				if t.Op == token.LOR {
-					l, ok1 := ast.Unparen(t.X).(*ast.BinaryExpr)
-					rr, ok2 := ast.Unparen(t.Y).(*ast.BinaryExpr)
-					if ok1 && ok2 && l.Op == token.LSS && rr.Op == token.GTR {
-						if a, ok := c.exprConst(l.Y); ok {
-							if b, ok := c.exprConst(rr.Y); ok {
-								lo, hi = a, b
+		cuts := map[int64]bool{}
+		if fnS := c.ssaFunc(name); fnS != nil {
+			known := map[string]bool{"isDomainNameLabelSpecial": true, "escapeByte": true, "nextByte": true, "isDDD": true, "dddToByte": true}
+			seenF := map[*ssa.Function]bool{}
+			var visit func(f *ssa.Function, depth int)
+			visit = func(f *ssa.Function, depth int) {
+				if f == nil || seenF[f] || depth > 2 || len(f.Blocks) == 0 {
+					return
+				}
+				seenF[f] = true
+				for _, sub := range withAnon(f) {
+					allInstrs(sub, func(in ssa.Instruction) {
+						switch t := in.(type) {
+						case *ssa.BinOp:
+							var k int64
+							var other ssa.Value
+							var op = t.Op
+							if kv, ok := constIntOf(t.Y); ok {
+								k, other = kv, t.X
+							} else if kv, ok := constIntOf(t.X); ok {
+								k, other = kv, t.Y
+								switch op { // K op b  ==  b op' K
+								case token.LSS:
+									op = token.GTR
+								case token.GTR:
+									op = token.LSS
+								case token.LEQ:
+									op = token.GEQ
+								case token.GEQ:
+									op = token.LEQ
+								}
+							} else {
+								return
+							}
+							if cv, ok := other.(*ssa.Convert); ok {
+								other = cv.X
+							}
+							if b, ok := other.Type().Underlying().(*types.Basic); !ok || b.Kind() != types.Uint8 {
+								return
+							}
+							switch op {
+							case token.LSS, token.GEQ:
+								cuts[k] = true
+							case token.LEQ, token.GTR:
+								cuts[k+1] = true
+							}
+						case ssa.CallInstruction:
+							cn := calleeNameSSA(t.Common())
+							if cn == "isDomainNameLabelSpecial" {
+								usesSpecial = true
+							}
+							if cn == "escapeByte" {
+								usesEscape = true
+							}
+							if g := t.Common().StaticCallee(); g != nil && g.Pkg == f.Pkg && !known[cn] {
+								visit(g, depth+1)
 							}
 						}
-					}
-				}
-			case *ast.CallExpr:
-				switch c.calleeName(t) {
-				case "isDomainNameLabelSpecial":
-					usesSpecial = true
-				case "escapeByte":
-					usesEscape = true
+					})
 				}
 			}
-			return true
-		})
+			visit(fnS, 0)
+		}
+		if len(cuts) == 2 {
+			var cs []int64
+			for k := range cuts {
+				cs = append(cs, k)
+			}
+			sort.Slice(cs, func(i, j int) bool { return cs[i] < cs[j] })
+			lo, hi = cs[0], cs[1]-1
+		} else if len(cuts) > 0 {
+			var cs []string
+			for k := range cuts {
+				cs = append(cs, fmt.Sprintf("%#x", k))
+			}
+			sort.Strings(cs)
+			r.check(false, "C03.R3.escape-closure", name, c.pos(fd.Pos()), "", "octets are compared with constants at the cut points %s; the printable range [0x20,0x7e] has the two cut points 0x20 and 0x7f", strings.Join(cs, ", "))
+			continue
+		}
 		var problems []string
 		if !usesSpecial || !usesEscape || lo < 0 {
 			problems = append(problems, fmt.Sprintf("does not classify octets through isDomainNameLabelSpecial (%v), a printable range test (%v) and escapeByte (%v)", usesSpecial, lo >= 0, usesEscape))
